@@ -39,3 +39,13 @@ package mrt
 //@ func parseBGP4MPStateChange
 //@   requires hdr != nil
 //@   modifies hdr.*
+
+// C19 tier B: checked without annotations - every bounds/index/division/make obligation of the real body is
+// discharged with uncontracted callees replaced by arbitrary results and effects
+//@ props C19
+//@ func parsePeerIndexTable
+//@   claims bounds div0 make
+//@ func parseRibEntry
+//@   claims bounds div0 make
+//@ func parseGeoPeerTable
+//@   claims bounds div0 make
